@@ -1,6 +1,216 @@
-(* placeholder while the proofs are being written *)
+(* C13  Comparison is sound and complete over the compared properties.
+   Statements only; every proof is `exact <lemma>`; Print Assumptions follows each.
+   Vocabulary: model/Compare.v (compare_db and the functions it calls, the result tree), model/CompareSpec.v
+   (wf_matrix = names identify objects + dict keys unique; agree = independent meaning of "agree on every compared
+   property"; reports_nothing; reports = "reported below these objects with this kind"; collect = node paths by kind).
+   compare_db answers `None` exactly when float(None) would raise (a compared signal without min/max). *)
 From CM Require Import lib.Prelude model.Compare model.CompareSpec.
+From CM Require Import proofs.C13_lib proofs.C13_nodiff proofs.C13_edits proofs.C13_swap proofs.C13_final.
+From Coq Require Import Permutation.
+
+(* ---- a matrix compared with itself reports nothing, for every ignore setting ---- *)
+Theorem C13_compare_self_reports_nothing :
+  forall ign m r, wf_matrix m -> compare_db ign m m = Some r -> reports_nothing r.
+Proof. exact compare_self_reports_nothing. Qed.
+Print Assumptions C13_compare_self_reports_nothing.
+
+(* the comparison answers whenever every signal has its limits *)
+Theorem C13_compare_defined :
+  forall ign a b, limits_present a -> limits_present b -> compare_db ign a b <> None.
+Proof. exact compare_db_defined. Qed.
+Print Assumptions C13_compare_defined.
+
+(* ---- no difference is reported exactly when the matrices agree, for every ignore setting ---- *)
+Theorem C13_no_difference_iff_agree :
+  forall ign a b r, wf_matrix a -> wf_matrix b -> ids_unique b ->
+    compare_db ign a b = Some r -> (reports_nothing r <-> agree ign a b).
+Proof. exact no_difference_iff_agree. Qed.
+Print Assumptions C13_no_difference_iff_agree.
+
+(* soundness alone needs no uniqueness of identifiers *)
+Theorem C13_agree_implies_no_difference :
+  forall ign a b r, wf_matrix a -> wf_matrix b ->
+    compare_db ign a b = Some r -> agree ign a b -> reports_nothing r.
+Proof. exact agree_implies_no_difference. Qed.
+Print Assumptions C13_agree_implies_no_difference.
+
+(* completeness does need it: a frame that re-uses an identifier under a new name is not reported *)
+Theorem C13_no_difference_iff_agree_refuted_without_unique_ids :
+  exists a b r, wf_matrix a /\ wf_matrix b /\ ids_unique a /\
+    compare_db ign0 a b = Some r /\ reports_nothing r /\ ~ agree ign0 a b.
+Proof. exact reused_identifier_not_reported. Qed.
+Print Assumptions C13_no_difference_iff_agree_refuted_without_unique_ids.
+
+(* the root's result stays None exactly when nothing is reported (what dump_result prints) *)
+Theorem C13_root_result_none_iff :
+  forall ign a b r, compare_db ign a b = Some r -> (result_of r = RNone <-> reports_nothing r).
+Proof. exact root_result_none_iff. Qed.
+Print Assumptions C13_root_result_none_iff.
+
+(* ---- the same per kind of object ---- *)
+Theorem C13_signal_nodiff_iff :
+  forall ign s1 s2 r, dicts_ok_signal s1 -> dicts_ok_signal s2 ->
+    compare_signal ign s1 s2 = Some r -> (all_equal r = true <-> signal_agree ign s1 s2).
+Proof. exact signal_nodiff_iff. Qed.
+Print Assumptions C13_signal_nodiff_iff.
+
+Theorem C13_frame_nodiff_iff :
+  forall ign f1 f2 r, wf_frame f1 -> wf_frame f2 -> fr_name f1 = fr_name f2 ->
+    compare_frame ign f1 f2 = Some r -> (all_equal r = true <-> frame_agree ign f1 f2).
+Proof. exact frame_nodiff_iff. Qed.
+Print Assumptions C13_frame_nodiff_iff.
+
+Theorem C13_frame_nodiff_same_name :
+  forall ign f1 f2 r, compare_frame ign f1 f2 = Some r -> all_equal r = true -> fr_name f1 = fr_name f2.
+Proof. exact frame_nodiff_same_name. Qed.
+Print Assumptions C13_frame_nodiff_same_name.
+
+Theorem C13_signal_group_nodiff_iff :
+  forall g1 g2, gr_name g1 = gr_name g2 ->
+    (all_equal (compare_signal_group g1 g2) = true <-> group_agree g1 g2).
+Proof. exact group_quiet. Qed.
+Print Assumptions C13_signal_group_nodiff_iff.
+
+Theorem C13_ecu_nodiff_iff :
+  forall ign e1 e2, wf_ecu e1 -> wf_ecu e2 ->
+    (all_equal (compare_ecu ign e1 e2) = true <-> ecu_agree ign e1 e2).
+Proof. exact ecu_quiet. Qed.
+Print Assumptions C13_ecu_nodiff_iff.
+
+Theorem C13_attributes_nodiff_iff :
+  forall ign ref a1 a2, NoDup (keys a1) -> NoDup (keys a2) ->
+    (all_equal (compare_attributes ign ref a1 a2) = true <-> (ig_attr ign = false -> dict_agree a1 a2)).
+Proof. exact attrs_quiet. Qed.
+Print Assumptions C13_attributes_nodiff_iff.
+
+Theorem C13_defines_nodiff_iff :
+  forall ty d1 d2, NoDup (keys d1) -> NoDup (keys d2) ->
+    (all_equal (set_type ty (compare_define_list d1 d2)) = true <-> dict_agree d1 d2).
+Proof. exact defines_nodiff_iff. Qed.
+Print Assumptions C13_defines_nodiff_iff.
+
+Theorem C13_value_table_nodiff_iff :
+  forall ref vt1 vt2, NoDup (keys vt1) -> NoDup (keys vt2) ->
+    (all_equal (compare_value_table ref vt1 vt2) = true <-> dict_agree vt1 vt2).
+Proof. exact vt_quiet. Qed.
+Print Assumptions C13_value_table_nodiff_iff.
+
+(* ---- every compared property that differs is reported at the object concerned, with the right kind ----
+   (stronger than "exactly that field differs": whatever else differs as well) *)
+Theorem C13_single_edit_reported_at_signal :
+  forall ign a b r f1 f2 s1 s2,
+    wf_matrix b -> compare_db ign a b = Some r ->
+    In f1 (m_frames a) -> In f2 (m_frames b) -> fr_name f2 = fr_name f1 ->
+    In s1 (fr_signals f1) -> In s2 (fr_signals f2) -> sg_name s2 = sg_name s1 ->
+    let P := [(TFRAME, fr_name f1); (TSIGNAL, sg_name s1)] in
+    let n := sg_name s1 in
+    (sg_start s1 <> sg_start s2 -> reports r P RChanged Tstartbit n) /\
+    (sg_size s1 <> sg_size s2 -> reports r P RChanged Tsignalsize n) /\
+    (sg_le s1 <> sg_le s2 -> reports r P RChanged Tis_little_endian n) /\
+    (sg_signed s1 <> sg_signed s2 -> reports r P RChanged Tsign n) /\
+    (sg_factor s1 <> sg_factor s2 -> reports r P RChanged Tfactor n) /\
+    (sg_offset s1 <> sg_offset s2 -> reports r P RChanged Toffset n) /\
+    (sg_min s1 <> sg_min s2 -> reports r P RChanged Tmin n) /\
+    (sg_max s1 <> sg_max s2 -> reports r P RChanged Tmax n) /\
+    (sg_mux s1 <> sg_mux s2 -> reports r P RChanged Tmultiplex n) /\
+    (sg_unit s1 <> sg_unit s2 -> reports r P RChanged Tunit n) /\
+    (ig_comment ign = false -> comment_text (sg_comment s1) <> comment_text (sg_comment s2) -> reports r P RChanged Tcomment n) /\
+    (forall x, In x (sg_receivers s1) -> ~ In (snd x) (map snd (sg_receivers s2)) -> reports r P RRemoved (Treceiver (fst x)) (-1)) /\
+    (forall x, In x (sg_receivers s2) -> ~ In (snd x) (map snd (sg_receivers s1)) -> reports r P RAdded (Treceiver (fst x)) (-1)) /\
+    (ig_attr ign = false -> attrs_reported r (P ++ [(TATTRIBUTES, n)]) (sg_attrs s1) (sg_attrs s2)) /\
+    (ig_vt ign = false -> values_reported r (P ++ [(TValuetable, -1)]) (sg_values s1) (sg_values s2)).
+Proof. exact signal_edit_reported. Qed.
+Print Assumptions C13_single_edit_reported_at_signal.
+
+Theorem C13_single_edit_reported_at_frame :
+  forall ign a b r f1 f2,
+    wf_matrix b -> compare_db ign a b = Some r ->
+    In f1 (m_frames a) -> In f2 (m_frames b) -> fr_name f2 = fr_name f1 ->
+    let P := [(TFRAME, fr_name f1)] in
+    let n := fr_name f1 in
+    (fr_size f1 <> fr_size f2 -> reports r P RChanged Tdlc n) /\
+    (fr_id f1 <> fr_id f2 -> reports r P RChanged TID n) /\
+    (fr_ext f1 <> fr_ext f2 -> reports r P RChanged TFRAME n) /\
+    (ig_comment ign = false -> comment_text (fr_comment f1) <> comment_text (fr_comment f2) -> reports r P RChanged TFRAME n) /\
+    (forall t, In t (fr_tx f1) -> ~ In t (fr_tx f2) -> reports r P RRemoved TFrameTransmitter n) /\
+    (forall t, In t (fr_tx f2) -> ~ In t (fr_tx f1) -> reports r P RAdded TFrameTransmitter (fr_name f2)) /\
+    (forall s, In s (fr_signals f1) -> ~ In (sg_name s) (map sg_name (fr_signals f2)) -> reports r P RDeleted TSIGNAL (sg_name s)) /\
+    (forall s, In s (fr_signals f2) -> ~ In (sg_name s) (map sg_name (fr_signals f1)) -> reports r P RAdded TSIGNAL (sg_name s)) /\
+    (forall g, In g (fr_groups f1) -> ~ In (gr_name g) (map gr_name (fr_groups f2)) -> reports r P RRemoved TSignalgroup (gr_name g)) /\
+    (forall g, In g (fr_groups f2) -> ~ In (gr_name g) (map gr_name (fr_groups f1)) -> reports r P RAdded TSignalgroup (gr_name g)) /\
+    (forall g1 g2, In g1 (fr_groups f1) -> In g2 (fr_groups f2) -> gr_name g2 = gr_name g1 ->
+       let PG := P ++ [(TSignalGroup, gr_name g1)] in
+       (gr_id g1 <> gr_id g2 -> reports r PG RChanged TSignalName (-1)) /\
+       (forall m, In m (gr_members g1) -> ~ In m (gr_members g2) -> reports r PG RDeleted (TMember m) m) /\
+       (forall m, In m (gr_members g2) -> ~ In m (gr_members g1) -> reports r PG RAdded (TMember m) m)) /\
+    (ig_attr ign = false -> attrs_reported r (P ++ [(TATTRIBUTES, n)]) (fr_attrs f1) (fr_attrs f2)).
+Proof. exact frame_edit_reported. Qed.
+Print Assumptions C13_single_edit_reported_at_frame.
+
+Theorem C13_single_edit_reported_frame_set :
+  forall ign a b r, compare_db ign a b = Some r ->
+    (forall f1, In f1 (m_frames a) -> ~ In (fr_name f1) (map fr_name (m_frames b)) -> ~ In (arb f1) (map arb (m_frames b)) ->
+       reports r [] RDeleted TFRAME (fr_name f1)) /\
+    (forall f2, In f2 (m_frames b) -> ~ In (fr_name f2) (map fr_name (m_frames a)) -> ~ In (arb f2) (map arb (m_frames a)) ->
+       reports r [] RAdded TFRAME (fr_name f2)) /\
+    (forall f1, In f1 (m_frames a) -> ~ In (fr_name f1) (map fr_name (m_frames b)) -> In (arb f1) (map arb (m_frames b)) ->
+       reports r [(TFRAME, fr_name f1)] RChanged TName (fr_name f1)).
+Proof. exact frame_set_edit_reported. Qed.
+Print Assumptions C13_single_edit_reported_frame_set.
+
+Theorem C13_single_edit_reported_at_ecu :
+  forall ign a b r, wf_matrix b -> compare_db ign a b = Some r ->
+    (forall e, In e (m_ecus a) -> ~ In (ec_name e) (map ec_name (m_ecus b)) -> reports r [] RDeleted Tecu (ec_name e)) /\
+    (forall e, In e (m_ecus b) -> ~ In (ec_name e) (map ec_name (m_ecus a)) -> reports r [] RAdded Tecu (ec_name e)) /\
+    (forall e1 e2, In e1 (m_ecus a) -> In e2 (m_ecus b) -> ec_name e2 = ec_name e1 ->
+       (ig_comment ign = false -> ec_comment e1 <> ec_comment e2 -> reports r [(TECU, ec_name e1)] RChanged TECU (ec_name e1)) /\
+       (ig_attr ign = false -> attrs_reported r [(TECU, ec_name e1); (TATTRIBUTES, ec_name e1)] (ec_attrs e1) (ec_attrs e2))).
+Proof. exact ecu_edit_reported. Qed.
+Print Assumptions C13_single_edit_reported_at_ecu.
+
+Theorem C13_single_edit_reported_at_matrix :
+  forall ign a b r, wf_matrix b -> compare_db ign a b = Some r ->
+    (ig_attr ign = false -> attrs_reported r [(TATTRIBUTES, -1)] (m_attrs a) (m_attrs b)) /\
+    (ig_def ign = false ->
+       defines_reported r TDefineList (m_gdefs a) (m_gdefs b) /\ defines_reported r TEcuDefines (m_edefs a) (m_edefs b) /\
+       defines_reported r TFrameDefines (m_fdefs a) (m_fdefs b) /\ defines_reported r TSignalDefines (m_sdefs a) (m_sdefs b)) /\
+    (ig_vt ign = false ->
+       (forall k t, In (k, t) (m_vtables a) -> ~ In k (keys (m_vtables b)) -> reports r [] RDeleted (Tvaluetable k) (-1)) /\
+       (forall k t, In (k, t) (m_vtables b) -> ~ In k (keys (m_vtables a)) -> reports r [] RAdded (Tvaluetable k) (-1)) /\
+       (forall k t t2, In (k, t) (m_vtables a) -> In (k, t2) (m_vtables b) -> values_reported r [(TValuetable, k)] t t2)).
+Proof. exact matrix_edit_reported. Qed.
+Print Assumptions C13_single_edit_reported_at_matrix.
+
+(* ---- swapping the operands swaps additions and deletions ("removed" counts as deleted) ---- *)
+Theorem C13_swap_swaps_added_deleted :
+  forall ign a b r1 r2, wf_matrix a -> wf_matrix b -> coherent a b ->
+    compare_db ign a b = Some r1 -> compare_db ign b a = Some r2 ->
+    Permutation (collect is_added r2) (collect is_deleted r1) /\
+    Permutation (collect is_added r1) (collect is_deleted r2).
+Proof. exact swap_swaps_added_deleted. Qed.
+Print Assumptions C13_swap_swaps_added_deleted.
+
+(* without `coherent` it fails, even with unique names and identifiers in both matrices *)
+Theorem C13_swap_refuted_without_coherence :
+  exists a b r1 r2, wf_matrix a /\ wf_matrix b /\ ids_unique a /\ ids_unique b /\
+    compare_db ign0 a b = Some r1 /\ compare_db ign0 b a = Some r2 /\
+    ~ Permutation (collect is_added r2) (collect is_deleted r1).
+Proof. exact swap_refuted_without_coherence. Qed.
+Print Assumptions C13_swap_refuted_without_coherence.
+
+(* ---- cancompare: -c / -a switch the checks of comments / attributes ON, -t switches value tables OFF;
+        definitions are always compared ---- *)
 Theorem C13_cli_flags_to_ignore :
-  forall c a t, cli_ignore c a t = mkIgnore (negb c) (negb a) false t.
-Proof. reflexivity. Qed.
+  forall c a t, let i := cli_ignore c a t in
+    ig_comment i = negb c /\ ig_attr i = negb a /\ ig_vt i = t /\ ig_def i = false.
+Proof. exact cli_flags_to_ignore. Qed.
 Print Assumptions C13_cli_flags_to_ignore.
+
+(* non-vacuity: two well-formed, coherent matrices (reordered lists and dicts, one offset changed): the
+   comparison answers, reports at exactly that signal, nothing is added or deleted *)
+Example C13_example :
+  wf_matrix exA /\ wf_matrix exB /\ ids_unique exB /\ coherent exA exB /\ limits_present exA /\
+  exists r, compare_db ign0 exA exB = Some r /\ ~ reports_nothing r /\
+            reports r [(TFRAME, 10); (TSIGNAL, 8)] RChanged Toffset 8 /\
+            collect is_added r = [] /\ collect is_deleted r = [].
+Proof. exact example_instance. Qed.
